@@ -16,15 +16,20 @@
 
    where [wf_client] is the discipline checker of LifeSpec.v, which never looks at the heap
    (ghost state: references the client holds + parent each window is attached to).
-   What is proved is this statement for EVENT-FREE histories, hence the names _partial:
-   key and mouse dispatch with re-entrant handlers is part of the executable model, of the
-   correspondence check and of the _refuted witnesses below, but the invariant has not been carried
-   through the dispatch loops.  Everything else is at full strength: any number of windows, any
+   It is proved (a) in exactly this form for EVENT-FREE histories (the theorems named _partial), and
+   (b) for histories WITH key events and mouse press / release / wheel events, whose handlers make any
+   calls at any depth (C08_no_fault_events, C08_events_completed), with the client's side stated by the
+   discipline of LifeSpecEv.v: the same rules, but the destruction of a window takes effect when it
+   happens (a window released inside its own handler lives until the dispatch frame lets go), which the
+   checker reads off the library's frame references recorded in the trace.  Still open: the drag state
+   machine (DRAG events are rejected by that discipline), and (b) for the predictive checker of LifeSpec.v
+   that the oracle of the check uses.  Everything else is at full strength: any number of windows, any
    depth, any order of ref/unref/close, any number of pending restack requests, any fuel (running
    out of fuel is never a normal-looking value; that enough fuel exists is not proved). *)
 From Coq Require Import ZArith List Bool PArith.
 From Tickit Require Import LifeDefs LifeLemmas LifeInv LifeClose LifeQueue LifeDestroy LifeFate LifeSpec LifeProofs LifeAgree LifeWitness LifePenDefs LifePen.
 From Tickit Require BindDefs LifeBindDefs LifeBindSim LifeBindSafe.
+From Tickit Require Import LifeSpecEv LifeAgreeEv LifeEvents.
 Import ListNotations.
 Local Open Scope Z_scope.
 
@@ -105,6 +110,38 @@ Theorem C08_copy_bounded : forall k b,
   exists r b', get_span_text false k b = Some (r, b') /\ length b' = length b.
 Proof. exact copy_bounded. Qed.
 Print Assumptions C08_copy_bounded.
+
+(* HISTORIES WITH EVENTS.  [good F h]: the heap invariant, the agreement "reference count = the client's references
+   + the references held by dispatch frames, parents as the ghost has them", the frames [F] being released innermost
+   first with every framed window's parent framed further out -- so that the destruction of a window never consumes a
+   reference a frame holds.  Every dispatch function keeps it (S_all_holds: run_op, run_ops, the handler loops,
+   _handle_key, _handle_mouse, their loops over a copy of the children, on_term_mouse), or else the trace has left the
+   discipline. *)
+Theorem C08_dispatch_invariant : forall f, S_all f.
+Proof. exact S_all_holds. Qed.
+Print Assumptions C08_dispatch_invariant.
+
+(* any script, any fuel: if the model faults, the trace of what was executed is not one the discipline accepts *)
+Theorem C08_no_fault_events : forall fuel l f step hf,
+  run_script fixed fuel l = VFault f step hf -> wf_trace (tr hf) = false.
+Proof. exact events_no_fault. Qed.
+Print Assumptions C08_no_fault_events.
+
+(* a run that completes within the discipline ends in a heap that satisfies the invariant, agrees with the ghost, has
+   no frame left, and holds nothing once every reference has been dropped *)
+Theorem C08_events_completed : forall fuel l h,
+  run_script fixed fuel l = VOk h -> wf_trace (tr h) = true ->
+  hinv [] h /\ exists g, echeck e0 (rev (tr h)) = Some g /\ agreeE g h /\
+                         (forall i x, nth_error g i = Some x -> e_fr x = 0) /\
+                         (all_dropped_e g = true -> heap_empty h = true).
+Proof. exact events_completed. Qed.
+Print Assumptions C08_events_completed.
+
+Theorem C08_events_nonvacuous : exists h,
+  run_script fixed 80 ev_demo = VOk h /\ wf_trace (tr h) = true /\ heap_empty h = true /\
+  (6 <= length (filter (fun o => match o with OFrameRef _ => true | _ => false end) (tr h)))%nat.
+Proof. exact events_nonvacuous. Qed.
+Print Assumptions C08_events_nonvacuous.
 
 (* the render buffer's pen stack (model LifePenDefs.v of setpen / save / savepen / restore, whole-line
    text and erase, clear, reset, flush and destroy in src/renderbuffer.c): the invariant [rinv]
